@@ -1012,28 +1012,122 @@ def _raw_module(mod):
         return mod
 
 
-def _len_sites(mod, fn, tprob):
+def _guards(mod, fi, node):
+    """What is known to hold when the expression `node` is evaluated, as far
+    as the control structure says: [(test, polarity)] from the if-branches that
+    dominate its statement (CFG Assume nodes: insensitive to if/else vs
+    guard-clause spelling) and from the conditional expressions / short-circuit
+    operators that enclose it inside the statement; plus whether it stands in
+    the body of a `try` with handlers (an exception there is an alternative
+    way of guarding)."""
+    out = []
+    stmt = fi.stmt(node)
+    if stmt is not None:
+        for a in fi.cfg.nodes:
+            if isinstance(a, Assume) and fi.cfg.dominates(a, stmt):
+                out.append((a.test, a.polarity))
+    c, p = node, mod.parent.get(node)
+    while p is not None and p is not fi.fn and not isinstance(p, ast.stmt):
+        if isinstance(p, ast.IfExp):
+            if c is p.body:
+                out.append((p.test, True))
+            elif c is p.orelse:
+                out.append((p.test, False))
+        elif isinstance(p, ast.BoolOp) and c in p.values:
+            for v in p.values[:p.values.index(c)]:
+                out.append((v, isinstance(p.op, ast.And)))
+        c, p = p, mod.parent.get(p)
+    in_try = False
+    while p is not None and p is not fi.fn:
+        if (isinstance(p, ast.Try) or type(p).__name__ == 'TryStar') and p.handlers and any(c is s for s in p.body):
+            in_try = True
+        c, p = p, mod.parent.get(p)
+    return out, in_try
+
+
+def _arg_nullness(fi, e):
+    """'none' / 'notnone' / 'maybe': whether the argument expression `e` (None:
+    the argument is not passed and the default None applies) is None."""
+    if e is None:
+        return 'none'
+    x = fi.resolve(e) if isinstance(e, ast.Name) else e
+    if isinstance(x, ast.Constant):
+        return 'none' if x.value is None else 'notnone'
+    if isinstance(x, ast.Subscript) and isinstance(x.value, ast.Attribute) and x.value.attr == 'shape':
+        return 'notnone'
+    if isinstance(x, (ast.BinOp, ast.UnaryOp, ast.Compare, ast.Tuple, ast.List)):
+        return 'notnone'
+    if isinstance(x, ast.Call) and call_name(x) in ('len', 'int'):
+        return 'notnone'
+    return 'maybe'
+
+
+def _helper_len_conditions(mod, h, hp):
+    """For every `len(<matrix parameter>)` in the masking helper: the
+    condition on its state-count parameter under which it is evaluated -
+    'none' (only when no count was supplied: the documented fallback),
+    'notnone' (when a count WAS supplied), 'always', or 'unknown'.  Located by
+    role: the guards that dominate the len() call and test the parameter
+    (still holding the caller's value) against None."""
+    fi = finfo(mod, h)
+    out = []
+    for c in calls_in(h):
+        if not (call_name(c) == 'len' and len(c.args) == 1 and u(c.args[0]) == hp[0]):
+            continue
+        if len(hp) < 3:
+            out.append('always')
+            continue
+        kinds = set()
+        guards, in_try = _guards(mod, fi, c)
+        for test, pol in guards:
+            t = _none_test(fi, test, hp[2])
+            uses = [n for n in ast.walk(test) if isinstance(n, ast.Name) and n.id == hp[2]]
+            if t is not None and uses and all(fi.defs_of_use(n) == {'PARAM'} for n in uses):
+                kinds.add('none' if t == pol else 'notnone')
+            elif hp[2] in names_loaded(fi.expand(test)):
+                kinds.add('unknown')
+        if in_try:
+            kinds.add('unknown')
+        for k in ('none', 'notnone', 'unknown'):
+            if k in kinds:
+                out.append(k)
+                break
+        else:
+            out.append('always')
+    return out
+
+
+def _len_sites(mod, fn, fi, tprob):
     """Places where the state count is taken with len(<matrix>): explicit
-    len(tprob) and calls of _I_m_Q without n_states (the helper falls back to
-    len(tprob))."""
+    len(tprob) and calls of _I_m_Q that make the helper evaluate its
+    len(tprob) - decided from the condition on n_states under which the helper
+    does so and from whether the call passes a count.  Returns (sites, calls
+    for which that cannot be decided)."""
     out = [c for c in calls_in(fn) if call_name(c) == 'len' and len(c.args) == 1 and isinstance(c.args[0], ast.Name)
            and c.args[0].id == tprob]
     try:
         h = mod.func(HELPER)
     except AnalysisIncomplete:
-        return out
+        return out, []
     hp = params(h)
-    fallback = len(hp) >= 3 and any(call_name(c) == 'len' and len(c.args) == 1 and u(c.args[0]) == hp[0] for c in calls_in(h))
-    if fallback:
+    conds = _helper_len_conditions(mod, h, hp)
+    unknown = []
+    if conds:
         for c in calls_in(fn):
-            if call_name(c) == HELPER:
-                n = arg_or_kw(c, 2, hp[2])
-                if (n is None or (isinstance(n, ast.Constant) and n.value is None)) and \
-                        not any(isinstance(a, ast.Starred) for a in c.args) and not any(k.arg is None for k in c.keywords):
-                    a0 = arg_or_kw(c, 0, hp[0])
-                    if a0 is not None and u(a0) == tprob:
-                        out.append(c)
-    return out
+            if call_name(c) != HELPER:
+                continue
+            a0 = arg_or_kw(c, 0, hp[0])
+            if a0 is None or u(a0) != tprob:
+                continue
+            if any(isinstance(a, ast.Starred) for a in c.args) or any(k.arg is None for k in c.keywords):
+                nn = 'maybe'
+            else:
+                nn = _arg_nullness(fi, arg_or_kw(c, 2, hp[2]) if len(hp) >= 3 else None)
+            if any(k == 'always' or k == nn for k in conds):
+                out.append(c)
+            elif any(k == 'unknown' for k in conds) or nn == 'maybe':
+                unknown.append(c)
+    return out, unknown
 
 
 # ---------------------------------------------------------------------------
@@ -1045,14 +1139,107 @@ def d6_sparse(ck, mod):
         fn = raw.func(F)
         fi = finfo(raw, fn)
         tprob = params(fn)[0]
-        lens = _len_sites(raw, fn, tprob)
+        lens, unknown = _len_sites(raw, fn, fi, tprob)
+        for c in unknown:
+            if not _densified_before(raw, fi, tprob, fi.stmt(c)):
+                ck.missing('C07.D6.sparse', 'whether `%s` in %s makes %s evaluate len(%s) on a possibly sparse matrix (the condition on its '
+                           'state-count parameter / the count passed is not recognised)' % (u(c)[:80], F, HELPER, tprob))
         badlen = [c for c in lens if not _densified_before(raw, fi, tprob, fi.stmt(c))]
         ck.check(not badlen, 'C07.D6.sparse', mod, badlen[0] if badlen else (lens[0] if lens else fn), F,
                  u(badlen[0]) if badlen else (u(lens[0]) if lens else 'no len(%s)' % tprob),
                  'len(tprob) only after sparse input was densified' if lens else 'state count from .shape: no len() on a possibly sparse matrix',
                  '%s is documented for dense and sparse input, but len(<scipy sparse matrix>) raises TypeError: the state '
-                 'count must come from .shape or the input be densified first (_I_m_Q falls back to len(tprob) when n_states '
-                 'is not passed)' % F)
+                 'count must come from .shape or the input be densified first (_I_m_Q may fall back to len(tprob) only when '
+                 'n_states is not passed; a call that passes the count must not reach that len())' % F)
+    d6_container_guard(ck, mod)
+
+
+SPARSE_TESTS = ('issparse', 'isspmatrix')
+# methods of the scipy.sparse containers that numpy.ndarray does not have
+SPARSE_ONLY_METHODS = {'toarray', 'todense', 'tolil', 'tocsr', 'tocsc', 'tocoo', 'todok', 'tobsr', 'todia', 'asformat', 'getnnz'}
+
+
+def _container_fact(fi, test, pol, X, P):
+    """What the guard (test, polarity) says about the container of the Name
+    use X: 'sparse' / 'dense' (an issparse(X) conjunct about the same value),
+    'unknown' (the test depends on the matrix in a way not recognised), or
+    None (it does not concern the matrix)."""
+    from ..patterns import conjuncts
+    cj = conjuncts(test, pol)
+    for c in (cj or []):
+        if not (isinstance(c, tuple) and c[0] == 'expr'):
+            continue
+        e, p = c[1], c[2]
+        for _ in range(4):
+            if isinstance(e, ast.Name):
+                r = fi.resolve(e, depth=1)
+                if r is e:
+                    break
+                e = r
+            elif isinstance(e, ast.UnaryOp) and isinstance(e.op, ast.Not):
+                e, p = e.operand, not p
+            else:
+                break
+        if isinstance(e, ast.Call) and (call_name(e) or '').split('.')[-1].startswith(SPARSE_TESTS) and len(e.args) == 1 \
+                and not e.keywords and isinstance(e.args[0], ast.Name) and fi.same_value(e.args[0], X):
+            if (call_name(e) or '').split('.')[-1] in SPARSE_TESTS or p:
+                return 'sparse' if p else 'dense'
+    dep = names_loaded(fi.expand(test)) | {n for n in fi.derives_from(test)[0]}
+    if dep & {X.id, P}:
+        return 'unknown'
+    return None
+
+
+def d6_container_guard(ck, mod):
+    """Dense and sparse inputs are both admitted, so the matrix argument is an
+    ndarray on some calls and a scipy.sparse container on others.  A method
+    that only the sparse containers have (`tolil`, `toarray`, ...) applied to
+    the caller's matrix is therefore only admissible on paths where the
+    matrix is KNOWN to be sparse: necessary condition - every such call is
+    dominated by (or sits in the arm of) a guard with the conjunct
+    issparse(<the same value>).  Under the opposite guard (`not issparse`) or
+    under no guard at all every dense input raises AttributeError (and, under
+    the opposite guard, sparse input is no longer converted); a guard of
+    another kind (hasattr, isinstance, try/except) is not decided here."""
+    rule = 'C07.D6.sparse.guard'
+    for F in ('committors', 'mfpts', HELPER):
+        fn = mod.func(F)
+        fi = finfo(mod, fn)
+        P = params(fn)[0]
+        n = 0
+        for c in calls_in(fn):
+            f = c.func
+            if not (isinstance(f, ast.Attribute) and f.attr in SPARSE_ONLY_METHODS and isinstance(f.value, ast.Name)):
+                continue
+            X = f.value
+            defs = fi.defs_of_use(X)
+            root = X
+            if 'PARAM' not in defs:
+                root = fi.resolve(X)
+                if not (isinstance(root, ast.Name) and root.id == P and 'PARAM' in fi.defs_of_use(root)):
+                    continue        # a container made inside the function
+            elif X.id != P:
+                continue
+            n += 1
+            guards, in_try = _guards(mod, fi, c)
+            facts = [_container_fact(fi, t, pol, X, P) for t, pol in guards]
+            if 'sparse' in facts:
+                ck.ok(rule, mod, c, '%s: %s' % (F, u(c)), 'the sparse-only method runs only where the matrix is known to be sparse')
+            elif 'dense' in facts:
+                ck.bad(rule, mod, c, F, u(c),
+                       '%s admits dense and sparse matrices; `.%s()` exists only on scipy.sparse containers and must run only when '
+                       'issparse(%s) holds. Here it runs exactly when the matrix is NOT sparse: every dense ndarray input raises '
+                       'AttributeError, and sparse input is no longer converted' % (F, f.attr, X.id))
+            elif 'unknown' in facts or in_try or root is not X or defs != {'PARAM'}:
+                ck.missing(rule, 'whether `%s` in %s runs only for sparse input (no issparse(%s) guard on the same value recognised)'
+                           % (u(c)[:80], F, X.id))
+            else:
+                ck.bad(rule, mod, c, F, u(c),
+                       '%s admits dense and sparse matrices; `.%s()` exists only on scipy.sparse containers, but it is applied to the '
+                       'caller\'s matrix without any test of its container: every dense ndarray input raises AttributeError'
+                       % (F, f.attr))
+        if n == 0:
+            ck.ok(rule, mod, fn, '%s: no sparse-only method on %s' % (F, P), 'no scipy.sparse-only method is applied to the matrix argument')
 
 
 # ---------------------------------------------------------------------------
